@@ -19,6 +19,11 @@ A path that loops while moving the cursor without emitting a step is reported wi
   LASTB  find_last_match_before(pos) selects matches by their END against the cursor, inclusively (`m.end() <= pos`, i.e.
          never `pos < end` taken): a test on `m.start()` or a strict test drops the empty match that sits exactly at the
          cursor (`"abc".rfind(/$/)`).
+  OWNSTATE  the two directions keep separate state: `next` stores only to `current_pos` / `done`, `next_back` only to
+         `reverse_pos` / `reverse_done`. A step function that writes the other direction's cursor or exhaustion flag cuts
+         that direction's step stream short (or restarts it) when the two are interleaved on one searcher.
+  SCANALL   find_last_match_before returns only what its rescan found: no path reaches the return without passing the
+         `find_from(haystack, 0)` call (an early `return None` for some cursor, e.g. 0, hides the empty match there).
   BOUND  a loop in the searcher that walks a byte offset by +-1 (to leave the inside of a UTF-8 sequence) tests
          `haystack.is_char_boundary(x)` on the very offset `x` it steps: testing another variable never moves (or never
          stops) the walk and the stored cursor / emitted bound lands inside a character.
@@ -167,6 +172,55 @@ def check(facts):
                 else:
                     r.ok(key)
                     nround += 1
+    # OWNSTATE
+    own = {"::next": ("current_pos", "done"), "::next_back": ("reverse_pos", "reverse_done")}
+    allf = {"current_pos", "done", "reverse_pos", "reverse_done"}
+    for suffix, mine in sorted(own.items()):
+        fn = find_fn(facts, suffix)
+        if not fn:
+            continue
+        b = facts.body(fn)
+        foreign = []
+        nst = 0
+        for bi, i, st in b.iter_stmts():
+            if st["k"] != "assign" or not st["pl"]["p"]:
+                continue
+            rt, pr = b.root_of(st["pl"]["l"])
+            if rt != 1:
+                continue
+            fl = [x.get("f") for x in pr if isinstance(x, dict) and "f" in x] + core.proj_fields(st["pl"])
+            if not fl or fl[0] not in allf:
+                continue
+            nst += 1
+            if fl[0] not in mine:
+                foreign.append((fl[0], st["line"]))
+        key = "%s writes only its own direction's state" % fn
+        if foreign:
+            r.fail(key, "%s stores to `%s` (line %s), the other direction's state: interleaved next / next_back on one searcher then cut the "
+                        "other direction's steps short — they no longer tile the haystack or contain find_iter's matches" % (
+                            suffix[2:], foreign[0][0], foreign[0][1]), facts.loc(fn, foreign[0][1]))
+        elif nst:
+            r.ok(key, "%d stores, all to %s" % (nst, "/".join(mine)))
+        else:
+            r.error("%s: no store to the searcher's cursor / flag fields found (anchor lost)" % fn)
+    # SCANALL
+    for fn in sorted(n for n in facts.body_names() if "pattern_impl" in n and n.endswith("find_last_match_before")):
+        b = facts.body(fn)
+        scans = [bb for bb, t in b.iter_calls() if (t.get("callee") or "").endswith("Regex::find_from")]
+        rets = [bi for bi in b.reachable() if b.blocks[bi]["t"]["k"] == "return"]
+        key = "%s returns only what its rescan found" % fn
+        if not scans:
+            r.fail(key, "find_last_match_before no longer rescans with Regex::find_from", facts.loc(fn))
+        else:
+            around = b.reach_from(0, avoid=set(scans))
+            if 0 in scans:
+                around = set()
+            if any(x in around for x in rets):
+                r.fail(key, "a path reaches the return of find_last_match_before without running the rescan (an early return for some "
+                            "cursor value): a match that ends exactly there — the empty match at offset 0 — is never reported by next_back",
+                       facts.loc(fn))
+            else:
+                r.ok(key, "every return passes the find_from(haystack, 0) rescan")
     # LASTB
     lb = [n for n in facts.body_names() if "pattern_impl" in n and "find_last_match_before" in n]
     if not lb:
